@@ -141,7 +141,7 @@ def run(ctx: Ctx) -> None:
     tasks = [('num',), ('misc',), ('shadow',), ('e01', FULL_LEAVES)]
     # depth-2 expressions whose left operand is a leaf ("2^-2", "2*(2+pi)",
     # "pi/sin(2)" ...) always complete; the rest runs under a time cap below
-    tasks += [('e2', leaves, ai, op) for ai in range(len(leaves))
+    tasks += [('e2', leaves, ai, op, 0, 1) for ai in range(len(leaves))
               for op in L.BINOPS]
     tasks += [('gd1', i, 16) for i in range(16)]
     for lay in W.LAYOUTS:
@@ -168,8 +168,8 @@ def run(ctx: Ctx) -> None:
         _stage(ctx, 'programs-three-statements', tasks, total, budget=240)
 
     nO = len(L.operands(list(leaves)))
-    tasks = [('e2', leaves, ai, op) for ai in range(len(leaves), nO)
-             for op in L.BINOPS]
+    tasks = [('e2', leaves, ai, op, c, 3) for ai in range(len(leaves), nO)
+             for op in L.BINOPS for c in range(3)]
     _stage(ctx, 'programs-expressions-depth-2', tasks, total,
            budget=20 if quick else 240)
 
